@@ -56,8 +56,17 @@ where
     ) -> Result<ChangeData<T>> {
         let prev_stamp = c.read_stamp()?;
         let prev_stored_len = c.read_u64()?;
-        c.skip(SIZE_OF_U64)?; // stored_len, not needed for rollback
+        let stored_len = c.read_u64()?;
         let truncated_count = c.read_u64()?;
+        // The three length fields are redundant: reject a record in which they disagree
+        // instead of installing a length the data does not back.
+        let expected = prev_stored_len.saturating_sub(stored_len);
+        if truncated_count != expected {
+            return Err(Error::WrongLength {
+                received: truncated_count,
+                expected,
+            });
+        }
 
         let truncated_start = prev_stored_len
             .checked_sub(truncated_count)
